@@ -56,6 +56,11 @@ TABLE = {
             'the matrices handed to scipy.linalg.solve are the GLS normal matrix and right-hand side, and every fluctuation / gradient of every parameter is -X times the (embedded) data fluctuation; '
             'together with the contracts this is the GLS estimator in value and every fluctuation; chisquare, dof and p-value arguments are decided as well.',
             'Minimisers and LAPACK replaced by contracts (stationary point; A X = B); estimated correlation matrices and expected_chisquare outside; the final linear-algebra step (H X = M => GLS) is an argument, not a query.'),
+    'C08': (True, 'symbolic execution of least_squares / total_least_squares for non-linear models behind minimiser / ODR / linear-solve contracts; decomposed SMT obligations (A) Hessian, (B) mixed derivatives, (C) wiring, (D) function minimised',
+            'For exponential, cosh, rational and multi-dimensional models (and the TLS straight line / exponential / rational) the matrices handed to the linear solver are proven to be the Hessian and the '
+            'mixed second derivatives of an independently written chi-square (incl. the x-residual term) at the stationary point, and every parameter fluctuation is -X d(data) in the library\'s data order; '
+            'with H X = M this is the implicit-function rule for all sample values.',
+            'Minimiser / ODRPACK numerics replaced by the stationary-point contract; the re-fit corollary and the dx->0 limit are consequences, not separately run; final linear-algebra step is an argument.'),
 }
 
 NOT_YET = 'check not built yet in this session (work in progress; see DESIGN.md section 4 for the plan)'
